@@ -112,6 +112,11 @@ func (h *baseHandler) Read(p []byte) (n int, err error) {
 			h.readBuf.WriteString(protocol.FieldDelimiter)
 		}
 		h.readBuf.WriteString(line.Content.String())
+		if !h.plain && !bytes.HasSuffix(line.Content.Bytes(), []byte{'\n'}) {
+			// The unterminated last line of a file: a labelled record is always a
+			// whole output line, otherwise the next record lands on the same line.
+			h.readBuf.WriteByte('\n')
+		}
 		h.readBuf.WriteByte(protocol.MessageDelimiter)
 		n, _ = h.readBuf.Read(p)
 		pool.RecycleBytesBuffer(line.Content)
